@@ -140,7 +140,7 @@ func dsParseOptBool(s string) dictionary.BoolFlag {
 	case "1":
 		return dictionary.BoolFlag{Valid: true, Bool: true}
 	}
-	panic("bad flag in case line: " + s)
+	panic(badCase("bad flag in case line: " + s))
 }
 
 func dsParseOptIntPtr(s string) *int {
@@ -158,10 +158,10 @@ func dsParseDict(attrs, values, vendors string) *dictionary.Dictionary {
 	for _, e := range dsSplit(vendors) {
 		f := strings.Split(e, ":")
 		if len(f) != 5 || f[0] == "-" {
-			panic("bad vendor in case line: " + e)
+			panic(badCase("bad vendor in case line: " + e))
 		}
 		if _, dup := byKey[f[0]]; dup {
-			panic("bad vendor key in case line: " + e)
+			panic(badCase("bad vendor key in case line: " + e))
 		}
 		v := &dictionary.Vendor{Name: string(unhx(f[1])), Number: atoi(f[2]), TypeOctets: dsParseOptIntPtr(f[3]), LengthOctets: dsParseOptIntPtr(f[4])}
 		byKey[f[0]] = v
@@ -170,12 +170,12 @@ func dsParseDict(attrs, values, vendors string) *dictionary.Dictionary {
 	for _, e := range dsSplit(attrs) {
 		f := strings.Split(e, ":")
 		if len(f) != 8 {
-			panic("bad attribute in case line: " + e)
+			panic(badCase("bad attribute in case line: " + e))
 		}
 		a := &dictionary.Attribute{Name: string(unhx(f[1])), Type: dictionary.AttributeType(atoi(f[3])),
 			Size: dsParseOptInt(f[4]), FlagEncrypt: dsParseOptInt(f[5]), FlagHasTag: dsParseOptBool(f[6]), FlagConcat: dsParseOptBool(f[7])}
 		if a.Type < 1 || a.Type > 17 {
-			panic("bad attribute type in case line: " + e)
+			panic(badCase("bad attribute type in case line: " + e))
 		}
 		if f[2] != "-" {
 			for _, c := range strings.Split(f[2], ".") {
@@ -187,17 +187,17 @@ func dsParseDict(attrs, values, vendors string) *dictionary.Dictionary {
 		} else if v := byKey[f[0]]; v != nil {
 			v.Attributes = append(v.Attributes, a)
 		} else {
-			panic("bad vendor key in case line: " + e)
+			panic(badCase("bad vendor key in case line: " + e))
 		}
 	}
 	for _, e := range dsSplit(values) {
 		f := strings.Split(e, ":")
 		if len(f) != 4 {
-			panic("bad value in case line: " + e)
+			panic(badCase("bad value in case line: " + e))
 		}
 		n, err := strconv.ParseUint(f[3], 10, 64)
 		if err != nil {
-			panic("bad value number in case line: " + e)
+			panic(badCase("bad value number in case line: " + e))
 		}
 		val := &dictionary.Value{Attribute: string(unhx(f[1])), Name: string(unhx(f[2])), Number: n}
 		if f[0] == "-" {
@@ -205,7 +205,7 @@ func dsParseDict(attrs, values, vendors string) *dictionary.Dictionary {
 		} else if v := byKey[f[0]]; v != nil {
 			v.Values = append(v.Values, val)
 		} else {
-			panic("bad vendor key in case line: " + e)
+			panic(badCase("bad vendor key in case line: " + e))
 		}
 	}
 	return d
@@ -242,7 +242,7 @@ func dsParseOpts(pkg, ignore, refs string) dsGenOpts {
 	for _, e := range dsSplit(refs) {
 		f := strings.SplitN(e, ":", 2)
 		if len(f) != 2 || f[1] == "" {
-			panic("bad ref in case line: " + e)
+			panic(badCase("bad ref in case line: " + e))
 		}
 		o.refs[string(unhx(f[0]))] = f[1]
 	}
